@@ -66,6 +66,34 @@ def translate_fit_M(fn):
     return ('(let m := mat_max M + tiny in map (map (fun x => x / m)) M)', '(let m := qmaxl v + tiny in map (fun x => x / m) v)')
 
 
+def check_stable_power(ut):
+    """utils.stable_matrix_power, as modelled by Real/MatRoot.v: 2-D input -> (NaN handling) ; +1e-8 on the diagonal ; U, S from an SVD ; S[S<0] = 0 ;
+    U @ diag(S**power) @ U.T   (= MatRoot.root_of for power 1/2);  1-D input -> clip at 0, elementwise power (= the diagonal-mode theorem)"""
+    fn = [f for f in ut.body if isinstance(f, ast.FunctionDef) and f.name == 'stable_matrix_power']
+    if not fn:
+        raise TranslationError('utils.stable_matrix_power not found')
+    body = _nodoc(fn[0].body)
+    if len(body) != 1 or not isinstance(body[0], ast.If) or ast.unparse(body[0].test) != 'len(M.shape) == 2':
+        raise TranslationError('stable_matrix_power: expected a single dispatch on len(M.shape) == 2')
+    two = body[0].body
+    src = [ast.unparse(x) for x in two]
+    def has(prefix):
+        return [u for u in src if u.startswith(prefix)]
+    if src[0] != "assert M.shape[0] == M.shape[1], 'Matrix must be square'" or not has('if torch.isnan(M).all()') or not has('if torch.isnan(M).any()'):
+        raise TranslationError(f'stable_matrix_power (2-D): preamble changed: {src[:3]}')
+    tail = [u for u in src if not u.startswith('if torch.isnan') and not u.startswith('assert ')]
+    want_svd = ('if M.shape[0] < MAX_DIMENSIONS_FOR_SVD:', 'U, S, _ = torch.linalg.svd(M)', 'U, S, _ = torch.svd_lowrank(M, q=MAX_DIMENSIONS_FOR_SVD)')
+    if len(tail) != 4 or tail[0] != 'M.diagonal().add_(1e-08)' or not all(w in tail[1] for w in want_svd) or tail[2] != 'S[S < 0] = 0.0' \
+            or tail[3] != 'return (U @ torch.diag(S ** power) @ U.T).to(device=M.device, dtype=M.dtype)':
+        raise TranslationError(f'stable_matrix_power (2-D): not `+1e-8 on the diagonal; U, S = svd; S[S<0] = 0; U @ diag(S**power) @ U.T`: {tail}')
+    orelse = body[0].orelse
+    if len(orelse) != 1 or not isinstance(orelse[0], ast.If) or ast.unparse(orelse[0].test) != 'len(M.shape) == 1':
+        raise TranslationError('stable_matrix_power: 1-D branch not found')
+    one = [ast.unparse(x) for x in orelse[0].body if not ast.unparse(x).startswith('if torch.isnan') and not ast.unparse(x).startswith('assert ')]
+    if one != ['M[M < 0] = 0.0', 'return M ** power']:
+        raise TranslationError(f'stable_matrix_power (1-D): not `clip at 0; elementwise power`: {one}')
+
+
 def generate():
     rt = ast.parse(open(os.path.join(REPO, 'xrfm', 'rfm_src', 'recursive_feature_machine.py')).read())
     check_update(_cls_method(rt, 'RFM', 'update_M'))
@@ -74,6 +102,7 @@ def generate():
     mp = [f for f in ut.body if isinstance(f, ast.FunctionDef) and f.name == 'matrix_power']
     if not mp or [ast.unparse(s) for s in _nodoc(mp[0].body)] != ['return stable_matrix_power(M, power, verbose=verbose)']:
         raise TranslationError('utils.matrix_power does not forward to stable_matrix_power')
+    check_stable_power(ut)
     return f'''(* GENERATED on every run by harness/agopops.py from /repo/xrfm/rfm_src/recursive_feature_machine.py — do not edit *)
 From Coq Require Import QArith List Bool Arith.
 Require Import XV.Model.Tree XV.Model.Soft XV.Model.Agop.
@@ -97,7 +126,7 @@ def check_translation(ck):
         rc, out, dt = coqc(p)
         ck.checker_cmds.append(f'coqc build/{ck.pid}/run_<pid>/AgopOps_gen.v')
         ck.obligation('AgopOps_gen.v: RFM.update_M / fit_M (initialisation, which reduction and which transform are used, batch split and truncation, accumulation, '
-                      'normalisation by the largest entry + 1e-30, root of the NORMALISED matrix, joint store), re-translated from the source, match the Coq model Agop.v', 'translation', rc == 0, out)
+                      'normalisation by the largest entry + 1e-30, root of the NORMALISED matrix, joint store; the root routine is `U diag(clip(S)^power) U^T` from an SVD / clip-and-power in diagonal mode = MatRoot.root_of), re-translated from the source, match the Coq models Agop.v / MatRoot.v', 'translation', rc == 0, out)
         return rc == 0
     except TranslationError as e:
         ck.obligation('agopops translator recognises the source', 'translation', False, str(e))
